@@ -17,9 +17,9 @@ var c36Routes = []string{"sql", "csv", "json", "parquet"}
 // c36Excluded is the per-route type-support table: column families a route's FILE FORMAT cannot represent faithfully
 // (value = the reason, listed in the evidence). Cells of such columns are not compared on that route; everything else is.
 var c36Excluded = map[string]map[string]string{
-	"sql": {},
-	"csv": {},
-	"json": {},
+	"sql":     {},
+	"csv":     {},
+	"json":    {"binary": "JSON has no byte-string type: `dolt dump -r json` writes binary cells as (UTF-8-sanitised / base64) text, which cannot be told from a text value on import"},
 	"parquet": {},
 }
 
@@ -29,11 +29,15 @@ var c36SkipKinds = map[string]map[string]string{
 	"csv": {
 		"parent": "table-file routes carry no schema: tables with generated columns / foreign keys are loaded on the SQL route only",
 		"child":  "table-file routes carry no schema: tables with generated columns / foreign keys are loaded on the SQL route only",
+		"bits":   "`dolt table import` has no conversion from file cells to BIT (it refuses every row: 'column value should be of type string'); BIT is exercised on the SQL route only",
 	},
 }
 
 func init() {
-	c36SkipKinds["json"] = c36SkipKinds["csv"]
+	c36SkipKinds["json"] = map[string]string{"bins": "all columns are of the excluded family binary"}
+	for k, v := range c36SkipKinds["csv"] {
+		c36SkipKinds["json"][k] = v
+	}
 	c36SkipKinds["parquet"] = c36SkipKinds["csv"]
 }
 
@@ -209,8 +213,22 @@ func c36(c *rig.Ctx) {
 					cnt.add("sql.dump_bytes", int(st.Size()))
 				}
 				if code, out := doltCLI(dst, home, "sql", "--file", file); code != 0 {
-					l.violation("c36/sql/load-failed", "`dolt sql --file doltdump.sql` into an empty repository failed: "+truncate(out, 900), map[string]any{"db": db.Name, "dump_flags": db.DumpArg})
-					// whatever was loaded is still compared
+					failing := "other"
+					for _, t := range db.Tables {
+						if strings.Contains(out, "INSERT INTO "+qid(t.Name)+" ") || strings.Contains(out, "CREATE TABLE "+qid(t.Name)+" ") {
+							failing = t.Kind
+							break
+						}
+					}
+					l.violation("c36/sql/load-failed/"+failing, "`dolt sql --file doltdump.sql` into an empty repository failed: "+truncate(out, 700), map[string]any{"db": db.Name, "dump_flags": db.DumpArg})
+					cnt.add("sql.loads_failed", 1)
+					// the plain load stops at the first error. So that the rest of the dump is still judged, the dump is loaded
+					// again into a fresh empty repository with --continue (the failure above stays reported).
+					os.RemoveAll(dst)
+					rig.Must(mustCLI(dst, home, "init"))
+					doltCLI(dst, home, "sql", "--continue", "--file", file)
+				} else {
+					cnt.add("sql.loads_ok", 1)
 				}
 				for name := range snap.Tables {
 					loaded[route][db.Name] = append(loaded[route][db.Name], name)
@@ -353,11 +371,34 @@ func diffRows(route string, t *c36table, want, have *c36snapTable) (string, stri
 	for i := range w {
 		for j := range w[i] {
 			if w[i][j] != h[i][j] {
-				return fam[j], fmt.Sprintf("column %s (%s), sorted row %d: source %s copy %s", want.Cols[j], t.Cols[j].Type, i, showCell(w[i][j]), showCell(h[i][j]))
+				return fam[j] + "/" + classifyCell(w[i][j], h[i][j]), fmt.Sprintf("column %s (%s), sorted row %d: source %s copy %s", want.Cols[j], t.Cols[j].Type, i, showCell(w[i][j]), showCell(h[i][j]))
 			}
 		}
 	}
 	return "", ""
+}
+
+// classifyCell names the kind of change between a source cell and its copy (part of the violation key).
+func classifyCell(src, cp string) string {
+	switch {
+	case src == sqlrig.Null && cp == "":
+		return "null-to-empty"
+	case src == "" && cp == sqlrig.Null:
+		return "empty-to-null"
+	case src == sqlrig.Null:
+		return "null-to-value"
+	case cp == sqlrig.Null:
+		return "value-to-null"
+	case strings.ReplaceAll(src, "\r\n", "\n") == cp:
+		return "crlf-to-lf"
+	case strings.HasPrefix(src, cp):
+		return "truncated"
+	case strings.ToValidUTF8(src, "\uFFFD") == cp:
+		return "invalid-utf8-replaced"
+	case strings.TrimRight(src, " ") == strings.TrimRight(cp, " ") || strings.TrimRight(src, "\x00") == strings.TrimRight(cp, "\x00"):
+		return "padding"
+	}
+	return "changed"
 }
 
 func showCell(s string) string {
